@@ -71,7 +71,9 @@ typedef struct thread_pool_t {
 	 * is finished.
 	 *
 	 * @return A pointer to a new work item or NULL if there are none
-	 *         in the pipeline.
+	 *         in the pipeline, or if a worker reported an error and the
+	 *         next item in sequence has not been completed (the remaining
+	 *         items are not processed anymore, see get_status).
 	 */
 	void *(*dequeue)(struct thread_pool_t *pool);
 
